@@ -186,7 +186,7 @@ EvalW(e, W, env, k) ==
 (* A point is [k, l] : node k (l = 0) or integrator point (k, l).          *)
 (***************************************************************************)
 \* rel "vle": vector-valued  lhs[i] <= rhs[i]  (c.lhs, c.rhs sequences of expressions; c.vscale element-wise scales)
-ConsExprs(c) == IF c.rel = "box" THEN <<c.lo, c.lhs, c.hi>> ELSE IF c.rel = "vle" THEN c.lhs \o c.rhs ELSE <<c.lhs, c.rhs>>
+ConsExprs(c) == IF c.rel = "box" THEN <<c.lo, c.lhs, c.hi>> ELSE IF c.rel = "vle" THEN c.lhs \o c.rhs ELSE IF c.rel = "vbox" THEN c.lhs ELSE <<c.lhs, c.rhs>>
 ConsOffsets(c) == UNION {Offsets(ConsExprs(c)[i]) : i \in 1..Len(ConsExprs(c))}
 
 DeclaredPoints(c, N, M, deg) ==
@@ -223,6 +223,10 @@ EnvAt(W, pt) ==
   ELSE IF pt.l = 0 THEN EnvNode(W, pt.k)
   ELSE EnvIntg(W, pt.k, pt.l)
 
+RECURSIVE FlatFrom(_, _)
+FlatFrom(ss, i) == IF i > Len(ss) THEN <<>> ELSE ss[i] \o FlatFrom(ss, i + 1)
+Flat(ss) == FlatFrom(ss, 1)
+
 (* slacks of one instance, divided by the constraint scale; equalities: residual *)
 Slacks(c, W, pt) ==
   LET env == EnvAt(W, pt)
@@ -233,10 +237,10 @@ Slacks(c, W, pt) ==
        [] c.rel = "eq"  -> <<Div(Sub(ev(c.lhs), ev(c.rhs)), s)>>
        [] c.rel = "box" -> <<Div(Sub(ev(c.lhs), ev(c.lo)), s), Div(Sub(ev(c.hi), ev(c.lhs)), s)>>
        [] c.rel = "vle" -> Tup([i \in 1..Len(c.lhs) |-> Div(Sub(ev(c.rhs[i]), ev(c.lhs[i])), c.vscale[i])])
-
-RECURSIVE FlatFrom(_, _)
-FlatFrom(ss, i) == IF i > Len(ss) THEN <<>> ELSE ss[i] \o FlatFrom(ss, i + 1)
-Flat(ss) == FlatFrom(ss, 1)
+       \* an infinite bound is no row side at all; every finite one is, entry by entry
+       [] c.rel = "vbox" -> Flat(Tup([i \in 1..Len(c.lhs) |->
+                                  (IF c.lo[i].op = "inf" THEN <<>> ELSE <<Div(Sub(ev(c.lhs[i]), ev(c.lo[i])), s)>>)
+                                  \o (IF c.hi[i].op = "inf" THEN <<>> ELSE <<Div(Sub(ev(c.hi[i]), ev(c.lhs[i])), s)>>)]))
 
 SetToSeq(S) == IF S = {} THEN <<>> ELSE LET RECURSIVE H(_) H(SS) == IF SS = {} THEN <<>> ELSE LET x == CHOOSE y \in SS : TRUE IN <<x>> \o H(SS \ {x}) IN H(S)
 
